@@ -195,6 +195,7 @@ def _impl(it, ms, out, class_stack, claimed):
     impl = it["impl"]
     if not claimed and ms.flags[impl["cmd"]]:
         out.append(Entry(dir="function", kind="unclaimed-impl", optional=True, name=None, adm=[], doc=[], fields=[]))
+        # (name of the definition: see render._render_impl; not needed because optional entries are never asserted)
     _walk(impl["body"], ms, out, class_stack)
 
 
